@@ -171,11 +171,11 @@ class ShardVolumeSpec:
         ):
             raise ShardedIOError(f"{grid_coords!r} needs to be int, and >= 0")
         if not all(
-            grid_coord <= grid_size
+            grid_coord < grid_size
             for grid_coord, grid_size in zip(grid_coords, self.grid_sizes)
         ):
             raise ShardedIOError(f"{grid_coords!r} must be element-wise less "
-                                 "or eq to {self.grid_sizes!r}, but is not")
+                                 f"than {self.grid_sizes!r}, but is not")
 
         j = np.uint64(0)
         one = np.uint64(1)
